@@ -5,7 +5,7 @@ sys.path.insert(0, '/verif')
 from mutants.mutants import MUTANTS
 args = [a for a in sys.argv[1:] if not a.startswith('--')]
 tests = '--tests' in sys.argv
-runs = {'C13': '480', 'C14': '2304', 'C16': '3000', 'C17': '3000'}
+runs = {'C13': '480', 'C14': '2448', 'C16': '3000', 'C17': '3000'}
 res = []
 for m in MUTANTS:
     if args and not any(a in m['id'] for a in args):
